@@ -173,6 +173,16 @@ def gen_setup(r, allow_unknown=True):
             if r.random() < 0.3:
                 encs.append(("csc", code))
             decs.append(("csc", code))
+    # distractors: further encryptors of the same kinds that do NOT match (other selector, listed
+    # before the matching one): select_encryptor must skip them
+    if r.random() < 0.5:
+        for kd in kinds:
+            if kd == "ecc":
+                sel0 = [b[1] for b in blocks if b[0] == "ecc"][0]
+                for osel in r.sample([x for x in range(4) if x != sel0], r.choice([1, 2, 3])):
+                    od = toyecc.keygen(3000 + osel)
+                    encs.insert(0, ("ecc", osel, None, toyecc.pub_of(od)))
+                    decs.insert(0, ("ecc", osel, od, toyecc.pub_of(od)))
     if allow_unknown and r.random() < 0.2:
         blocks.append(("unknown", r.choice([4, 9, 0x7F, 0xFF]), bytes(r.randrange(256) for _ in range(r.randrange(0, 20)))))
     r.shuffle(blocks)
